@@ -59,7 +59,9 @@ Names == {"a/b", "n/w"}
 WildNames == {"a/+"}
 ShortNames == {"ab"}
 ShortId(n) == 24930   \* "ab" = 0x6162
-Attr(n) == [wild |-> n \in WildNames \/ n = "w/#", short |-> n \in ShortNames \/ n = "a+"]
+\* filters that START with a wildcard (subscribed once each, QoS 1)
+LeadWild == {"#", "+/b"}
+Attr(n) == [wild |-> n \in WildNames \/ n = "w/#" \/ n \in LeadWild, short |-> n \in ShortNames \/ n = "a+"]
 
 Connects ==
     {EvC([P0 EXCEPT !.t = "CONNECT", !.will = w, !.dur = d, !.cid = "c1", !.clean = TRUE])
@@ -93,6 +95,7 @@ Registers ==
 Subscribes ==
     {EvC([P0 EXCEPT !.t = "SUBSCRIBE", !.mid = m, !.qos = q, !.tit = 0, !.topic = n, !.wild = Attr(n).wild, !.dup = d])
        : m \in MsgIds, q \in {1, 3}, n \in {"a/b", "pre/x"} \cup WildNames, d \in BOOLEAN}
+    \cup {EvC([P0 EXCEPT !.t = "SUBSCRIBE", !.mid = m, !.qos = 1, !.tit = 0, !.topic = n, !.wild = TRUE]) : m \in MsgIds, n \in LeadWild}
     \cup {EvC([P0 EXCEPT !.t = "SUBSCRIBE", !.mid = m, !.qos = 0, !.tit = 1, !.tid = i]) : m \in MsgIds, i \in {5, 6, 7, 9}}
     \cup {EvC([P0 EXCEPT !.t = "SUBSCRIBE", !.mid = m, !.qos = 2, !.tit = 2, !.tid = ShortId("ab"), !.sname = "ab"]) : m \in MsgIds}
 Unsubscribes ==
@@ -176,7 +179,7 @@ ShortNameOf(tid) == IF tid = 24930 THEN "ab" ELSE IF tid = 24875 THEN "a+" ELSE 
 ObsSn(p) == p @@ [wf |-> TRUE, size |-> 10, sname |-> IF p.tit = 2 THEN ShortNameOf(p.tid) ELSE ""]
 MqValid(m) ==
     /\ m.qos <= 2 /\ m.rqos <= 2 /\ m.willqos <= 2
-    /\ (m.t = "PUBLISH" => m.topic # "" /\ m.topic \notin (WildNames \cup {"w/#", "a+"}))
+    /\ (m.t = "PUBLISH" => m.topic # "" /\ m.topic \notin (WildNames \cup LeadWild \cup {"w/#", "a+"}))
     /\ (m.t \in {"SUBSCRIBE", "UNSUBSCRIBE"} => m.topic # "")
     /\ (m.t = "CONNECT" => (m.willflag => m.willtopic # ""))
     /\ (m.t = "SUBSCRIBE" => ~m.dup)
